@@ -169,6 +169,7 @@ pub fn v_lcm_flat_map<T, F: Fn(&T) -> Option<usize>>(s: &[T], f: F, Ghost(vals):
         forall|i: int| 0 <= i < s@.len() ==> f.requires((&#[trigger] s@[i],)),
         forall|i: int, o: Option<usize>| 0 <= i < s@.len() && #[trigger] f.ensures((&s@[i],), o) ==> o == vals[i],
     ensures
+        r == crate::verif_specs::lcm_fold(vals, vals.len() as int),
         r is Some && r->0 != 0 ==> forall|i: int| 0 <= i < vals.len() && (#[trigger] vals[i]) is Some && vals[i]->0 != 0 ==> vals[i]->0 <= r->0,
         r is Some && r->0 == 0 ==> exists|i: int| 0 <= i < vals.len() && #[trigger] vals[i] == Some(0usize),
 {
@@ -177,8 +178,7 @@ pub fn v_lcm_flat_map<T, F: Fn(&T) -> Option<usize>>(s: &[T], f: F, Ghost(vals):
     while i < s.len()
         invariant
             i <= s.len(), vals.len() == s@.len(),
-            acc != 0 ==> forall|k: int| 0 <= k < i && (#[trigger] vals[k]) is Some && vals[k]->0 != 0 ==> vals[k]->0 <= acc,
-            acc == 0 ==> exists|k: int| 0 <= k < i && #[trigger] vals[k] == Some(0usize),
+            Some(acc) == crate::verif_specs::lcm_fold(vals, i as int),
             forall|k: int| 0 <= k < s@.len() ==> f.requires((&#[trigger] s@[k],)),
             forall|k: int, o: Option<usize>| 0 <= k < s@.len() && #[trigger] f.ensures((&s@[k],), o) ==> o == vals[k],
         decreases s.len() - i,
@@ -187,12 +187,19 @@ pub fn v_lcm_flat_map<T, F: Fn(&T) -> Option<usize>>(s: &[T], f: F, Ghost(vals):
             Some(x) => {
                 match crate::util::lcm_step__v(acc, x) {
                     Some(n) => { acc = n; }
-                    None => { return None; }
+                    None => {
+                        proof { crate::verif_specs::lemma_lcm_fold_none_stable(vals, i as int + 1, vals.len() as int); }
+                        return None;
+                    }
                 }
             }
             None => {}
         }
         i += 1;
+    }
+    proof {
+        if acc != 0 { crate::verif_specs::lemma_lcm_fold_ge(vals, vals.len() as int); }
+        else { crate::verif_specs::lemma_lcm_fold_zero(vals, vals.len() as int); }
     }
     Some(acc)
 }
